@@ -282,6 +282,30 @@ fn scenario(cx: &mut Ctx, rng: &mut Rng) {
                 same = same && (t1 == t2) == (u1 == u2) && (t1 <= t2) == (u1 <= u2) && (t1 >= t2) == (u1 >= u2) && t1.cmp(&t2) == u1.cmp(&u2)
                     && format!("{}|{:?}", &*t1, &*t1) == format!("{}|{:?}", &*u1, &*u1) && format!("{}", t1) == format!("{}", u1) && format!("{:?}", t1) == format!("{:?}", u1);
             }
+            // formatting forwards the caller's width, fill, alignment, precision, sign and '#' flags
+            {
+                let (p1, q1) = (BBox::new_in(f1, cx.bump), Box::new(f1));
+                let (pi, qi) = (BBox::new_in(x as i64 - 40, cx.bump), Box::new(x as i64 - 40));
+                let ts = if x % 2 == 0 { "ab" } else { "b" };
+                let t1: BBox<str> = unsafe { BBox::from_raw(cx.bump.alloc_str(ts) as *mut str) };
+                let u1: Box<str> = ts.into();
+                let (po, qo) = (BBox::new_in((x, Some(ts)), cx.bump), Box::new((x, Some(ts))));
+                same = same
+                    && format!("{:.2}|{:+}|{:>9.1}|{:*<8}|{:e}|{:?}|{:8.3?}", p1, p1, p1, p1, *p1, p1, p1) == format!("{:.2}|{:+}|{:>9.1}|{:*<8}|{:e}|{:?}|{:8.3?}", q1, q1, q1, q1, *q1, q1, q1)
+                    && format!("{:+05}|{:^7}|{:<4}|{:#x?}|{:04}|{:#?}", pi, pi, pi, pi, pi, pi) == format!("{:+05}|{:^7}|{:<4}|{:#x?}|{:04}|{:#?}", qi, qi, qi, qi, qi, qi)
+                    && format!("{:>5}|{:-<4}|{:.1}|{:^6?}|{:#?}", t1, t1, t1, t1, t1) == format!("{:>5}|{:-<4}|{:.1}|{:^6?}|{:#?}", u1, u1, u1, u1, u1)
+                    && format!("{:?}|{:#?}", po, po) == format!("{:?}|{:#?}", qo, qo)
+                    && format!("{:p}", p1) == format!("{:p}", &*p1 as *const f64);
+                // Borrow / AsRef / Hasher forward to the payload
+                let br: &f64 = std::borrow::Borrow::borrow(&p1);
+                let ar: &f64 = p1.as_ref();
+                same = same && br.to_bits() == f1.to_bits() && ar.to_bits() == f1.to_bits();
+                let mut bh = BBox::new_in(std::collections::hash_map::DefaultHasher::new(), cx.bump);
+                let mut sh = Box::new(std::collections::hash_map::DefaultHasher::new());
+                std::hash::Hasher::write_u64(&mut bh, x); std::hash::Hasher::write(&mut bh, ts.as_bytes()); std::hash::Hasher::write_i64(&mut bh, -(a as i64));
+                std::hash::Hasher::write_u64(&mut sh, x); std::hash::Hasher::write(&mut sh, ts.as_bytes()); std::hash::Hasher::write_i64(&mut sh, -(a as i64));
+                same = same && std::hash::Hasher::finish(&bh) == std::hash::Hasher::finish(&sh);
+            }
             let it: BBox<std::ops::Range<u32>> = BBox::new_in(0..5u32, cx.bump);
             let its: Box<std::ops::Range<u32>> = Box::new(0..5u32);
             let mut same_it = it.collect::<Vec<_>>() == its.collect::<Vec<_>>();
